@@ -2,7 +2,9 @@
    Induction over the stream with the invariant that relates the session's expected number to the position in
    the stream:
        aligned s pos :  state continuous,            next_recv = pos
-       ahead   s pos :  state resend_request_sent,   next_recv = pos + 1     (after a gap was detected)
+       ahead   s pos :  state resend_request_sent OR continuous,   next_recv = pos + 1     (after a gap was detected;
+                        the state is resend_request_sent unless the message that revealed the gap was the counterparty's
+                        own ResendRequest, which the session also SERVES: resend_request_received -> continuous)
    A SequenceReset-GapFill turns `ahead` into `aligned`; nothing else does.
    For EVERY schema, decoder, session configuration, gap size and position.  Proofs only. *)
 From Coq Require Import NArith ZArith List Bool Lia.
@@ -65,7 +67,7 @@ Proof. intros s s' raws items C H. induction H; constructor; [eapply is_item_cfg
 
 Definition good (s : sess) : Prop := s_reader s = true /\ live s.
 Definition aligned (s : sess) (pos : N) : Prop := s_state s = st_continuous /\ s_next_recv s = pos.
-Definition ahead (s : sess) (pos : N) : Prop := s_state s = st_resend_request_sent /\ s_next_recv s = pos + 1.
+Definition ahead (s : sess) (pos : N) : Prop := running s /\ s_next_recv s = pos + 1.
 
 Lemma good_not_shutdown : forall s, good s -> negb (s_reader s) || is_shutdown s = false.
 Proof.
@@ -152,25 +154,25 @@ Proof.
                   (pos < s_next_recv (w_last_recv now s) /\ possdup m = true /\ time_ok m = true)).
     { right. cbn. split; [lia|]. split; [assumption|]. apply TO. assumption. }
     destruct (process_app_ok sc decode fl now raw pos m (w_last_recv now s) Ar L NS C LOW) as (s1 & P & Po).
-    destruct (reader_step raw l s evs _ s1 _ _ _ G P Po (or_intror A1)) as (RL & G1 & C1).
+    destruct (reader_step raw l s evs _ s1 _ _ _ G P Po A1) as (RL & G1 & C1).
     exists s1. eexists. split; [exact RL|]. split; [exact G1|]. split; [exact C1|].
     rewrite D. split; [reflexivity|]. split; [reflexivity|].
-    destruct Po as (P1 & P2 & _). cbn in P1, P2. split; congruence.
+    destruct Po as (P1 & P2 & _). cbn in P1, P2. split; [unfold running; rewrite P1; exact A1|congruence].
   - destruct I as (m & Ar & Ty & C & PD & TO). subst q pd.
     assert (LOW : pos = s_next_recv (w_last_recv now s) \/
                   (pos < s_next_recv (w_last_recv now s) /\ possdup m = true /\ time_ok m = true)).
     { right. cbn. split; [lia|]. split; [assumption|]. apply TO. assumption. }
     destruct (process_heartbeat_ok sc decode fl now raw pos m (w_last_recv now s) Ar L Ty C LOW) as (s1 & P & Po).
-    destruct (reader_step raw l s evs _ s1 _ _ _ G P Po (or_intror A1)) as (RL & G1 & C1).
+    destruct (reader_step raw l s evs _ s1 _ _ _ G P Po A1) as (RL & G1 & C1).
     exists s1. eexists. split; [exact RL|]. split; [exact G1|]. split; [exact C1|].
     split; [reflexivity|]. split; [reflexivity|].
-    destruct Po as (P1 & P2 & _). cbn in P1, P2. split; congruence.
+    destruct Po as (P1 & P2 & _). cbn in P1, P2. split; [unfold running; rewrite P1; exact A1|congruence].
   - destruct I as (m & Ar & Ty). subst q.
     destruct (process_reject sc decode fl now raw pos m (w_last_recv now s) Ar Ty) as (s1 & P & Po).
-    destruct (reader_step raw l s evs _ s1 _ _ _ G P Po (or_intror A1)) as (RL & G1 & C1).
+    destruct (reader_step raw l s evs _ s1 _ _ _ G P Po A1) as (RL & G1 & C1).
     exists s1. eexists. split; [exact RL|]. split; [exact G1|]. split; [exact C1|].
     split; [reflexivity|]. split; [reflexivity|].
-    destruct Po as (P1 & P2 & _). cbn in P1, P2. split; congruence.
+    destruct Po as (P1 & P2 & _). cbn in P1, P2. split; [unfold running; rewrite P1; exact A1|congruence].
   - destruct I as (m & v & Ar & Ty & C & NSq & At). destruct Q as [Q1 Q2]. subst q.
     assert (LE : s_next_recv (w_last_recv now s) <= atoi_u v 0) by (cbn; lia).
     assert (PS : 0 < atoi_u v 0) by lia.
@@ -279,14 +281,14 @@ Proof.
     destruct (process_app_high sc decode fl now raw q m (w_last_recv now s) Ar L A1 NS C HI) as (s1 & e & P & (O1 & O2) & Po & _).
     destruct (reader_step raw l s evs _ s1 _ _ _ G P Po (or_intror eq_refl)) as (RL & G1 & C1).
     exists s1. eexists. split; [exact RL|]. split; [exact G1|]. split; [exact C1|].
-    destruct Po as (P1 & P2 & _). cbn in P2. split; [split; congruence|].
+    destruct Po as (P1 & P2 & _). cbn in P2. split; [split; [right; exact P1|congruence]|].
     rewrite dels_app, retl_app, O1, O2. split; reflexivity.
   - destruct I as (m & Ar & Ty & C & PD & TO).
     assert (HI : s_next_recv (w_last_recv now s) < q) by (cbn; lia).
     destruct (process_heartbeat_high sc decode fl now raw q m (w_last_recv now s) Ar L A1 Ty C HI) as (s1 & e & P & (O1 & O2) & Po).
     destruct (reader_step raw l s evs _ s1 _ _ _ G P Po (or_intror eq_refl)) as (RL & G1 & C1).
     exists s1. eexists. split; [exact RL|]. split; [exact G1|]. split; [exact C1|].
-    destruct Po as (P1 & P2 & _). cbn in P2. split; [split; congruence|].
+    destruct Po as (P1 & P2 & _). cbn in P2. split; [split; [right; exact P1|congruence]|].
     rewrite dels_app, retl_app, O1, O2. split; reflexivity.
 Qed.
 
